@@ -39,7 +39,8 @@ class FakeClock(IClock):
         :param initial: The initial instant.
         :param auto_advance: The duration to advance the clock on each read.
         """
-        self.__lock: Final[threading.Lock] = threading.Lock()
+        # Re-entrant: the advance_<unit> methods call advance() while already holding the lock.
+        self.__lock: Final[threading.RLock] = threading.RLock()
         self.__now: Instant = initial
         self.__auto_advance: Duration = auto_advance
 
